@@ -1,5 +1,5 @@
 use crate::{
-    geometry::Point,
+    geometry::{Dimensions, Point},
     primitives::{
         common::Scanline,
         rounded_rectangle::{RoundedRectangle, RoundedRectangleContains},
@@ -28,10 +28,13 @@ impl Iterator for Points {
     type Item = Point;
 
     fn next(&mut self) -> Option<Self::Item> {
-        self.current_scanline.next().or_else(|| {
+        loop {
+            if let Some(point) = self.current_scanline.next() {
+                return Some(point);
+            }
+
             self.current_scanline = self.scanlines.next()?;
-            self.current_scanline.next()
-        })
+        }
     }
 }
 
@@ -56,36 +59,43 @@ impl Iterator for Scanlines {
         let columns = self.rounded_rectangle.columns.clone();
         let y = self.rounded_rectangle.rows.next()?;
 
-        let x_start = if y < self.rounded_rectangle.straight_rows_left.start {
-            columns
-                .clone()
-                .find(|x| self.rounded_rectangle.top_left.contains(Point::new(*x, y)))
-        } else if y >= self.rounded_rectangle.straight_rows_left.end {
-            columns.clone().find(|x| {
-                self.rounded_rectangle
-                    .bottom_left
-                    .contains(Point::new(*x, y))
-            })
-        } else {
-            None
-        }
-        .unwrap_or(columns.start);
+        let rr = &self.rounded_rectangle;
 
-        let x_end = if y < self.rounded_rectangle.straight_rows_right.start {
+        // In rows that belong to a corner the scanline starts at the first column that is either
+        // inside the corner quadrant or no longer part of the corner.
+        let x_start = if y < rr.straight_rows_left.start {
+            let corner_end = rr.top_left.bounding_box().columns().end;
             columns
                 .clone()
-                .rfind(|x| self.rounded_rectangle.top_right.contains(Point::new(*x, y)))
-        } else if y >= self.rounded_rectangle.straight_rows_right.end {
-            columns.clone().rfind(|x| {
-                self.rounded_rectangle
-                    .bottom_right
-                    .contains(Point::new(*x, y))
-            })
+                .find(|x| *x >= corner_end || rr.top_left.contains(Point::new(*x, y)))
+        } else if y >= rr.straight_rows_left.end {
+            let corner_end = rr.bottom_left.bounding_box().columns().end;
+            columns
+                .clone()
+                .find(|x| *x >= corner_end || rr.bottom_left.contains(Point::new(*x, y)))
         } else {
-            None
+            Some(columns.start)
+        }
+        .unwrap_or(columns.end);
+
+        let x_end = if y < rr.straight_rows_right.start {
+            let corner_start = rr.top_right.bounding_box().columns().start;
+            columns
+                .clone()
+                .rfind(|x| *x < corner_start || rr.top_right.contains(Point::new(*x, y)))
+        } else if y >= rr.straight_rows_right.end {
+            let corner_start = rr.bottom_right.bounding_box().columns().start;
+            columns
+                .clone()
+                .rfind(|x| *x < corner_start || rr.bottom_right.contains(Point::new(*x, y)))
+        } else {
+            Some(columns.end - 1)
         }
         .map(|x| x + 1)
-        .unwrap_or(columns.end);
+        .unwrap_or(columns.start);
+
+        // Rows without any pixel are empty.
+        let x_end = x_end.max(x_start);
 
         Some(Scanline::new(y, x_start..x_end))
     }
